@@ -30,6 +30,18 @@ NOTES = {
  "C14b": "OBSOLETE on the current tree: the change relied on doGrowFile truncating to the new limit, which the repair of D16 (found through this agent's side note) removed; kept for the record",
  "C15b": "needed a fresh receiver per matrix cell (an earlier Load in the same sequence set the flag the change tests)",
  "C16b": "needed histories in which a commit releases overflow pages and truncates the file (overflow seed + free operations)",
+ "C01c": "needed a transaction with more queued writes than one writer batch (1100 pages): C01's huge-transaction histories with the coarse crash enumeration",
+ "C02c": "double finish of a transaction: reported by C15 (misuse) as a panic of the unlocked mutex; C02's scenarios contain no misuse",
+ "C03c": "C03's wide pass needed the 'wide-overwritten' seed: the 11-operation history of D6 is beyond depth 8 from the empty file",
+ "C04c": "needed a search that starts inside an open overflow-enabled transaction (seed 'overflow-tx-open'); reported by the independent on-disk decoder",
+ "C06c": "same writer-batch family as C01c; C06 needed a 1200-page write buffer and one event that fills it",
+ "C07c": "leaked statsLock after an aborted transaction with an Observer: exact deadlock in the first transaction that follows",
+ "C08c": "needed an open that lowers the limit of a file whose free tail touches the file end (configuration with a pre-sized meta area) under faults, and the memory-vs-disk oracle",
+ "C09c": "needed the scenario 'reader parked during commit 1, woken while commit 2 starts' with the race pass at the full preemption bound; the thorough tier of the old scenario set missed it as well",
+ "C10c": "wide-encoding histories (FreeRun of 255 pages)",
+ "C12c": "same region-encoding change as C10c/C16c (three agents found it independently); C12's region-size sweep does not produce a free region of exactly 255 pages, C10 does",
+ "C13c": "race between Reader.Done/ACK closing a read transaction and the producer's commit, Observer installed",
+ "C16c": "same region-encoding change; not a header-selection defect, C10 owns it",
  "C18b": "needs an I/O failure during a resizing open: C08 reports the hang as an exact deadlock; C18 (real file system) cannot inject it",
 }
 
@@ -88,5 +100,15 @@ def main():
     print("|---|---|---|---|---|")
     for r in rows:
         print("| %s | %s | %s | %s | %s |" % r)
+    print()
+    print("| revert of fix | property | commit | reported by (quick) |")
+    print("|---|---|---|---|")
+    for name in sorted(os.listdir(SEED)):
+        mp = os.path.join(SEED, name, "meta.json")
+        if not name.startswith("RD") or not os.path.exists(mp): continue
+        m = json.load(open(mp))
+        caught = [c for c, r in res.get(name, {}).items() if r["exit"] == 1]
+        missed = [c for c, r in res.get(name, {}).items() if r["exit"] == 0]
+        print("| %s | %s | %s | %s%s |" % (name, m["property"], m["commit"], ", ".join("%s (%s)" % (c, res[name][c]["cls"][:50]) for c in caught) or "-", (" ; no alarm: " + ", ".join(missed)) if missed else ""))
 
 main()
